@@ -388,6 +388,7 @@ def reference(node, env, modes=(False, True), dps=50, kappa_max=1e4):
                     out[m] = r
                 return out
             par, nodes = en._parents(node)
+            has_atan2 = any(isinstance(nd[0], str) and nd[0] == "ATan2" for nd in nodes.values() if nd)
             delta = mpf(2) ** -en.DELTA_BITS
             root = id(node)
             ev.dirty = set()
@@ -467,7 +468,9 @@ def reference(node, env, modes=(False, True), dps=50, kappa_max=1e4):
                     if ab0 is not None:
                         Enode[k] = Enode.get(k, mpf(0)) + ab0
                 try:
-                    lim = MARGIN[m] / (1024 * u)
+                    # every recorded discontinuity is at least min_kink away (atan2's cut is not recorded)
+                    kd = ev.min_kink if (ev.min_kink is not None and not has_atan2) else MARGIN[m]
+                    lim = kd / (1024 * u)
                     for q, eq_ in Enode.items():
                         if eq_ > lim and any(isinstance(nodes[w][0], str) and nodes[w][0] in en.DISCONT_HEADS
                                              for w in par.get(q, ()) if w in nodes):
